@@ -1059,9 +1059,11 @@ class StubsStringGenerator:
         if shortest_reexport_module_id != self._get_module_id() and shortest_reexport_module is not None:
             # Get alias
             alias = None
+            node_qname = node.id.replace("/", ".")
             for qualified_import in shortest_reexport_module.qualified_imports:
-                # The alias of "BigThing" is not the alias of "Thing"
-                if qualified_import.qualified_name.split(".")[-1] == node.name:
+                # The alias of "BigThing" or of "other_module.Thing" is not the alias of "Thing" (the import may lack
+                # leading parts of the path)
+                if f".{node_qname}".endswith(f".{qualified_import.qualified_name}"):
                     alias = qualified_import.alias
 
             if alias:
